@@ -211,7 +211,7 @@ func init() {
 			case 9:
 				return "tag:'" + c.r.ASCII(3) + "'"
 			case 10, 11, 12:
-				return "setvar:'" + c.r.Pick("tx.a=+1", "tx.a=-1", "!tx.a", "tx.a", "tx.b=%{tx.a}", "tx.%{tx.a}=1", "tx.c=%{matched_var}", "tx.a=+%{tx.b}", "tx.s=", "TX.a=x", "tx.a=%{env.x}", "tx.a=%{rule.msg}", "tx.a=%{json.x}", "tx.a=%{xml.x}", "tx.a=%{", "tx.a=%{%{", "tx.%{=1", "tx.a=%") + "'"
+				return "setvar:'" + c.r.Pick("tx.a=+1", "tx.a=-1", "!tx.a", "tx.a", "tx.b=%{tx.a}", "tx.%{tx.a}=1", "tx.c=%{matched_var}", "tx.a=+%{tx.b}", "tx.s=", "TX.a=x", "tx.a=%{env.x}", "tx.a=%{rule.msg}", "tx.a=%{json.x}", "tx.a=%{xml.x}", "tx.a=%{", "tx.a=%{%{", "tx.%{=1", "tx.a=%", "tx.b=%{tx.s}", "tx.q=%{query_string}", "tx.q=%{request_body}", "tx.q=%{args.e}", "tx.q=%{request_headers.x-empty}", "tx.q=%{matched_var}%{tx.s}") + "'"
 			case 13:
 				return "setenv:'" + c.r.Pick("a=b", "a", "=b", "a=%{tx.a}") + "'"
 			case 14, 15, 16:
@@ -320,6 +320,14 @@ func init() {
 					lines = append(lines, d+" "+argFor())
 				}
 			}
+			if c.r.Chance(0.35) {
+				// actions that certainly run: an unconditional rule with two or three well-formed actions
+				as := []string{goodAction(), goodAction()}
+				if c.r.Chance(0.5) {
+					as = append(as, goodAction())
+				}
+				lines = append(lines, "SecAction \"id:"+fmt.Sprint(200+c.r.Intn(9))+",phase:"+fmt.Sprint(1+c.r.Intn(5))+",pass,"+strings.Join(as, ",")+"\"")
+			}
 			if c.r.Chance(0.5) {
 				lines = append([]string{"SecRuleEngine On", "SecRequestBodyAccess On", "SecResponseBodyAccess On"}, lines...)
 			}
@@ -355,6 +363,10 @@ func init() {
 				switch op {
 				case "uri":
 					a1, a2 = "/"+c.r.ASCII(5)+"?"+c.r.Bytes(3), "GET"
+					if c.r.Chance(0.3) {
+						// variables that exist and are empty: no query string, an argument without a value
+						a1 = c.r.Pick("/p", "/p?", "/p?e=", "/p?e=&a=1", "/", "")
+					}
 				case "hdr":
 					if c.r.Chance(0.4) {
 						a1 = c.r.Pick("Content-Type", "Cookie", "Content-Length", "Host")
